@@ -3,7 +3,7 @@
 // monitor, the real allocators and a table-driven IPFS connector.
 // One line per call (the pre-state is explicit, so every line replays alone):
 //
-//   C04 <cfg> <peers> <paths> <blocks> <pre pinset> <op ...> => <res> <post pinset> <log>
+//	C04 <cfg> <peers> <paths> <blocks> <pre pinset> <op ...> => <res> <post pinset> <log>
 package main
 
 import (
@@ -33,6 +33,7 @@ type world struct {
 	peers          []string // state tokens a|v<n>|e|i|n
 	paths          map[int]int
 	blocks         map[int][]int
+	lost           map[int][]int // cluster-DAG blocks that exist as content but that BlockGet cannot fetch
 }
 
 func (w *world) cfgTok() string {
@@ -75,6 +76,18 @@ func (w *world) cfgTok() string {
 			ls[j] = strconv.Itoa(l)
 		}
 		bt[i] = fmt.Sprintf("%d:%s", k, strings.Join(ls, "."))
+	}
+	var lk []int
+	for k := range w.lost {
+		lk = append(lk, k)
+	}
+	sort.Ints(lk)
+	for _, k := range lk {
+		ls := make([]string, len(w.lost[k]))
+		for j, l := range w.lost[k] {
+			ls[j] = strconv.Itoa(l)
+		}
+		bt = append(bt, fmt.Sprintf("%d!%s", k, strings.Join(ls, ".")))
 	}
 	btk := "-"
 	if len(bt) > 0 {
@@ -206,7 +219,7 @@ func (e *env) step(out *common.Out, op []string) {
 var stateToks = []string{"v0", "v1", "v1", "v2", "v5", "v7", "e", "i", "n", "a"}
 
 func genWorld(r *common.Rng) *world {
-	w := &world{paths: map[int]int{}, blocks: map[int][]int{}}
+	w := &world{paths: map[int]int{}, blocks: map[int][]int{}, lost: map[int][]int{}}
 	w.follower = r.Chance(1, 12)
 	switch r.Intn(5) {
 	case 0:
@@ -234,8 +247,12 @@ func genWorld(r *common.Rng) *world {
 	}
 	w.paths[6] = 8 // path to the meta pin
 	// cluster-DAG block of cid 9 links the shards; sometimes absent (BlockGet fails)
-	if r.Chance(9, 10) {
+	switch x := r.Intn(10); {
+	case x < 7:
 		w.blocks[9] = []int{10, 11}
+	case x < 9:
+		// the block exists (the shards ARE the content of the meta pin) but the daemon cannot return it
+		w.lost[9] = []int{10, 11}
 	}
 	return w
 }
@@ -441,7 +458,7 @@ func genOp(r *common.Rng, e *env) []string {
 
 func parseWorld(f []string) (*world, bool) {
 	// f[0]=cfg f[1]=peers f[2]=paths f[3]=blocks
-	w := &world{paths: map[int]int{}, blocks: map[int][]int{}}
+	w := &world{paths: map[int]int{}, blocks: map[int][]int{}, lost: map[int][]int{}}
 	c := strings.Split(f[0], "/")
 	if len(c) != 3 {
 		return nil, false
@@ -464,6 +481,11 @@ func parseWorld(f []string) (*world, bool) {
 	}
 	if f[3] != "-" {
 		for _, bs := range strings.Split(f[3], ";") {
+			tgt := w.blocks
+			if strings.Contains(bs, "!") {
+				tgt = w.lost
+				bs = strings.Replace(bs, "!", ":", 1)
+			}
 			kv := strings.SplitN(bs, ":", 2)
 			k, _ := strconv.Atoi(kv[0])
 			var links []int
@@ -473,7 +495,7 @@ func parseWorld(f []string) (*world, bool) {
 					links = append(links, v)
 				}
 			}
-			w.blocks[k] = links
+			tgt[k] = links
 		}
 	}
 	return w, true
